@@ -500,4 +500,51 @@ Proof.
     solve [apply leb_inf_r, vit_mul_not_nan | apply leb_ninf_l, vit_mul_not_nan].
 Qed.
 
+(* ------------------------------------------------------------------------- *)
+(** * Viterbi: the rounded addition distributes over maximum EXACTLY *)
+
+Lemma vit_mul_zero_inv (a c : bf) :
+  ff_is_zero prec emax (vit_mul a c) = true ->
+  SN.is_finite a = true /\ SN.is_finite c = true /\ SN.B2R a + SN.B2R c = 0.
+Proof.
+  intros Z.
+  destruct (SN.is_finite a) eqn:Fa; [destruct (SN.is_finite c) eqn:Fc|].
+  - repeat split. destruct (add_finite a c Fa Fc) as [N E].
+    unfold ff_vit_mul in Z. rewrite nan_to_num_vit_id in Z by assumption.
+    destruct (add a c) as [s|s| |s m e H]; try discriminate.
+    cbn [xR SN.B2R] in E. symmetry in E. apply clamp_eq_0 in E.
+    apply round_plus_eq_0 in E; auto with typeclass_instances; apply SN.generic_format_B2R.
+  - exfalso. destruct a as [[|]|[|]| |[|] ma ea Ha], c as [[|]|[|]| |[|] mc ec Hc]; discriminate.
+  - exfalso. destruct a as [[|]|[|]| |[|] ma ea Ha], c as [[|]|[|]| |[|] mc ec Hc]; discriminate.
+Qed.
+
+Theorem ff_vit_mul_max_distr (a b c : bf) :
+  SN.is_nan a = false -> SN.is_nan b = false ->
+  vit_mul (fmax a b) c = fmax (vit_mul a c) (vit_mul b c).
+Proof.
+  intros Na Nb. rewrite ff_max_not_nan by assumption.
+  rewrite (ff_max_not_nan (vit_mul a c) (vit_mul b c)) by apply vit_mul_not_nan.
+  destruct (ltb a b) eqn:Lab.
+  - assert (Lle : leb a b = true).
+    { apply leb_le. apply ltb_lt in Lab. destruct Lab as (? & ? & ?). repeat split; trivial. lra. }
+    generalize (ff_vit_mul_mono a b c Lle). intros Mo.
+    destruct (ltb (vit_mul a c) (vit_mul b c)) eqn:Lf; trivial.
+    apply leb_le in Mo. destruct Mo as (N1 & N2 & Mo).
+    rewrite ltb_xR in Lf by assumption. revert Lf. case Rlt_bool_spec; try discriminate. intros Ge _.
+    destruct (xR_inj (vit_mul a c) (vit_mul b c) N1 N2) as [E|[Z1 Z2]]; [lra | now symmetry | ].
+    exfalso. apply vit_mul_zero_inv in Z1, Z2. destruct Z1 as (Fa & Fc & S1), Z2 as (Fb & _ & S2).
+    apply ltb_lt in Lab. destruct Lab as (_ & _ & Lab). rewrite !xR_finite in Lab by assumption. lra.
+  - assert (Lle : leb b a = true).
+    { apply leb_le. repeat split; trivial. rewrite ltb_xR in Lab by assumption.
+      revert Lab. case Rlt_bool_spec; try discriminate. intros; lra. }
+    generalize (ff_vit_mul_mono b a c Lle). intros Mo. apply leb_le in Mo. destruct Mo as (N1 & N2 & Mo).
+    rewrite ltb_xR by assumption. now rewrite Rlt_bool_false.
+Qed.
+
+(** the same on the other side *)
+Corollary ff_vit_mul_max_distr_l (a b c : bf) :
+  SN.is_nan a = false -> SN.is_nan b = false ->
+  vit_mul c (fmax a b) = fmax (vit_mul c a) (vit_mul c b).
+Proof. intros Na Nb. rewrite !(ff_vit_mul_comm c). now apply ff_vit_mul_max_distr. Qed.
+
 End Laws.
